@@ -139,6 +139,7 @@ type FuncContract struct {
 	Cover    bool
 	MayPanic bool // trusted callee that may panic under stated condition only
 	Fuel     int  // unfolding depth of recursive spec functions (0: default)
+	Exempt   []string
 }
 
 type LoopContract struct {
@@ -538,7 +539,7 @@ func (p *specParser) primary() SExpr {
 var clauseKeywords = map[string]bool{
 	"requires": true, "ensures": true, "modifies": true, "decreases": true, "reveal": true, "opaque": true,
 	"uses": true, "prop": true, "trusted": true, "invariant": true, "panics_when": true, "inline": true,
-	"induction": true, "trigger": true, "expect": true, "fuel": true, "cover": true, "nopanic": true, "uses_post": true, "panic_requires": true,
+	"induction": true, "trigger": true, "expect": true, "fuel": true, "exempt": true, "cover": true, "nopanic": true, "uses_post": true, "panic_requires": true,
 }
 var declKeywords = map[string]bool{"spec": true, "lemma": true, "ghost": true, "func": true, "loop": true, "pred": true, "effects": true, "package-effects": true}
 
@@ -733,6 +734,13 @@ func parseSpecText(pkg string, lines []string) (sf *SpecFile, err error) {
 				panic(fmt.Errorf("spec: invariant outside loop"))
 			}
 			curLoop.Invariants = append(curLoop.Invariants, Clause{E: mustExpr(it.text), Text: it.text})
+		case "exempt":
+			// exempt C09: the function belongs to a governance-approved upgrade, where C09's call-site obligation on SetAccount
+			// (never alter an existing account) does not apply; recorded as an abstraction in the report
+			if curF == nil {
+				panic(fmt.Errorf("spec: stray exempt"))
+			}
+			curF.Exempt = append(curF.Exempt, names(it.text)...)
 		case "fuel":
 			// unfolding depth of recursive spec functions for this unit's obligations (default 2)
 			n := 0
